@@ -668,8 +668,32 @@ fn c17_builder(s: &mut Sink, g: &mut u64) {
             ("mov64 r3, 7", vec![isa::mov64i(3, 7)]),
             ("ja +1", vec![isa::ja(1)]),
             ("exit", vec![isa::EXIT]),
+            ("callx 2", vec![I::new(0x85, 0, 1, 0, 2)]),
+            ("callx -3", vec![I::new(0x85, 0, 1, 0, -3)]),
         ];
         let mut n = 0u64;
+        // the builder, instruction after instruction, read back after every push (70 pushes: any
+        // internal storage threshold below that is crossed)
+        {
+            use rbpf::insn_builder::{Arch, BpfCode, Instruction, IntoBytes, Source};
+            let mut code = BpfCode::new();
+            let mut want: Vec<u8> = vec![];
+            for k in 0..70i32 {
+                if k % 3 == 2 {
+                    code.exit().push();
+                    want.extend_from_slice(&isa::EXIT.bytes());
+                } else {
+                    code.mov(Source::Imm, Arch::X64).set_dst((k % 10) as u8).set_imm(k).push();
+                    want.extend_from_slice(&isa::mov64i((k % 10) as u8, k).bytes());
+                }
+                let got = code.into_bytes().to_vec();
+                n += 1;
+                if got != want {
+                    s.violation("builder/sequence/bytes-mismatch", format!("after {} pushes the builder holds {} bytes, expected {} ({}...)", k + 1, got.len(), want.len(), hex(&got[..got.len().min(16)])), json!({"kind":"none"}));
+                    break;
+                }
+            }
+        }
         let mut stack: Vec<Vec<usize>> = (0..atoms.len()).map(|a| vec![a]).collect();
         for _len in 1..=4 {
             let mut next = vec![];
@@ -2353,6 +2377,16 @@ pub fn run_c16(s: &mut Sink) {
                             c16_check(s, &[I::new(opc, dst, src, off, imm)], &class);
                             n += 1;
                         }
+                    }
+                }
+            }
+            // ... and every small value of an unused offset / immediate (a field that another ISA
+            // version gives a meaning to: offset 1 = signed division, 8/16/32 = sign-extending move)
+            for (dst, src) in [(1u8, 2u8), (0, 0)] {
+                for off in (-4i16..=40).chain([64, 127, 128, 255, 256, 32767]) {
+                    for imm in [0i32, 1, 2, 3, 8, 64] {
+                        c16_check(s, &[I::new(opc, dst, if matches!(k, Kind::Call) { src.min(1) } else { src }, off, imm)], &class);
+                        n += 1;
                     }
                 }
             }
